@@ -149,6 +149,7 @@ REVERTS = [
     ("stDiGraph.get_width must count an ignored edge once", ["C09"]),
     ("safe-sequence computation must not recurse once per node of a path", ["C09"]),
     ("flow decomposition models must accept numpy-typed flow values", ["C19"]),
+    ("round the weight bound up instead of truncating it", ["C08", "C07"]),
 ]
 
 
